@@ -22,6 +22,8 @@ pub use utf8_decode::IncompleteUtf8;
 
 pub mod fmt;
 pub mod stream;
+#[cfg(feature = "verif")]
+pub mod verif;
 
 mod buf32;
 mod tendril;
